@@ -531,8 +531,10 @@ Definition apply_pin (index : Z) (f l : nat) (wb : option geometry) (fresh : Z) 
   | None => CErr CUnsupported
   | Some [] => COk {| ct_fresh := fresh; ct_clauses := [[1%Z]; [(-1)%Z]]; ct_requests := [] |}
   | Some trial_nos =>
-    vars <~ cmapM (fun t => get_variable (t + 1) f l) trial_nos ;;
-    COk {| ct_fresh := fresh; ct_clauses := map (fun v => [zn v]) vars; ct_requests := [] |}
+    (* per trial: the factor has no level there -> And([1, -1]); otherwise And([var]) *)
+    clss <~ cmapM (fun t => if negb (applies_at fb f (t + 1)) then COk [[1%Z]; [(-1)%Z]]
+                            else v <~ get_variable (t + 1) f l ;; COk [[zn v]]) trial_nos ;;
+    COk {| ct_fresh := fresh; ct_clauses := concat clss; ct_requests := [] |}
   end.
 
 (** * factor_preamble_size *)
